@@ -1777,6 +1777,8 @@ pub fn gen_step(w: &World, r: &mut Rng, g: &mut GenCtx, k: u64, stats: &mut Stat
         m => m,
     };
     let funds = if w.cfg.native { dr.funds } else { 0 };
-    let extra = if w.cfg.native { dr.extra } else { false };
+    // the second denom can only be attached by an account that was funded with it
+    let snd = dr.snd;
+    let extra = w.cfg.native && dr.extra && w.cfg.funds.iter().any(|(id, _)| *id == snd);
     Tx { k, snd: dr.snd, funds, extra, height, time, msg, fault: None }
 }
